@@ -204,3 +204,54 @@ func TestVerifWitness_C09_commodity_in_cost_and_assertion(t *testing.T) {
 	}
 	fmt.Println("WITNESS-HOLDS")
 }
+
+// partialOverlap: two fold regions that are neither disjoint nor nested.
+func partialOverlap(a, b protocol.FoldingRange) bool {
+	if a.EndLine < b.StartLine || b.EndLine < a.StartLine {
+		return false
+	}
+	aInB := b.StartLine <= a.StartLine && a.EndLine <= b.EndLine
+	bInA := a.StartLine <= b.StartLine && b.EndLine <= a.EndLine
+	return !aInB && !bInA
+}
+
+func foldWitness(content string) string {
+	s := NewServer()
+	uri := protocol.DocumentURI("file:///w.journal")
+	s.documents.Store(uri, content)
+	rs, _ := s.FoldingRanges(context.Background(), &protocol.FoldingRangeParams{TextDocumentPositionParams: protocol.TextDocumentPositionParams{TextDocument: protocol.TextDocumentIdentifier{URI: uri}}})
+	for i := range rs {
+		for k := i + 1; k < len(rs); k++ {
+			if partialOverlap(rs[i], rs[k]) {
+				return fmt.Sprintf("folds %d..%d and %d..%d partially overlap", rs[i].StartLine, rs[i].EndLine, rs[k].StartLine, rs[k].EndLine)
+			}
+		}
+	}
+	return ""
+}
+
+// C08 server.findTransactionFolds#loop1.inv3.preserve (fold_of_a_transaction): the fold of a transaction ends on its own
+// last line, not on the line of the token that follows it.
+func TestVerifWitness_C08_transaction_fold_end(t *testing.T) {
+	content := "2024-01-01 a\n    assets:x  1 USD\n    assets:y\n2024-01-02 b\n    assets:x  1 USD\n    assets:y\n"
+	if w := foldWitness(content); w != "" {
+		fmt.Println("WITNESS-FAILS two adjacent transactions (lines 0..2 and 3..5):", w)
+		return
+	}
+	fmt.Println("WITNESS-HOLDS")
+}
+
+// C08 (witness only: the comment-block folds scan raw lines and are not under contract): a comment block does not run from
+// an entry's indented comment lines into the top-level comments that follow.
+func TestVerifWitness_C08_comment_fold_crosses_entry_end(t *testing.T) {
+	for _, content := range []string{
+		"2024-01-01 a\n    assets:x  1 USD\n    assets:y\n    ; c1\n; c2\n; c3\n\n2024-01-02 b\n    assets:x  1 USD\n    assets:y\n",
+		"account a\n    ; c1\n; c2\n; c3\n",
+	} {
+		if w := foldWitness(content); w != "" {
+			fmt.Printf("WITNESS-FAILS %q: %s\n", content, w)
+			return
+		}
+	}
+	fmt.Println("WITNESS-HOLDS")
+}
